@@ -71,4 +71,31 @@ PROPS = {
         "assumptions": ["restart = all in-memory state dropped, same RocksDB handle (durability of a completed put is RocksDB's contract)"],
         "trusted_base": ["modelled: commit_prove_state, update_prove_state_to_child, SendLastStateProcess, Storage::{update,get}_last_state, {update,get}_last_n_headers"],
     },
+    "C05": {
+        "ops": [("c05", "RunSys", {"quick": 400, "thorough": 6000}),
+                ("sys", "RunSys", {"quick": 100, "thorough": 1500}),
+                ("c01", "RunC01", {"quick": 120, "thorough": 1200})],
+        "rule": "op c05: the honest prover's plan for requests drawn with the repository's own sampler on flat and variable-difficulty chains (gaps below, "
+                "at and above last-N, unknown start hash) compared with Model/HonestProver.v, and the client's verdict on it; op sys: honest event histories "
+                "(1-3 protocol-following peers at different heights, chain growth, reconnects, closing rounds) with the no-ban / convergence oracles; op c01: "
+                "the honest answer through the whole handler; distinct = distinct model input expression",
+        "assumptions": ["no light-client server crate is available offline: 'protocol-following' = the RFC 44 rules as specified in Model/HonestProver.v",
+                        "Fresh: every honest peer's announced tip changes within the 60 s message timeout and is younger than MAX_TIP_AGE (documented disconnects otherwise)"],
+        "trusted_base": ["modelled: the honest prover (spec), check_if_response_is_matched, the event system of Model/System.v"],
+    },
+    "C10": {
+        "ops": [("c10", "RunSys", {"quick": 360, "thorough": 6000}),
+                ("c01", "RunC01", {"quick": 160, "thorough": 2000}),
+                ("sys", "RunSys", {"quick": 60, "thorough": 1000}),
+                ("c14", "RunC14", {"quick": 150, "thorough": 3000})],
+        "rule": "op c10: every LightClientMessage union variant (default content), SendLastState / SendLastStateProof / SendBlocksProof(V1) / "
+                "SendTransactionsProof(V1) with boundary values {0,1,2,2^32-1,2^63-1,2^63,2^64-1} / {0,1,2^256-2,2^256-1} on every numeric field, header "
+                "vectors of length 0,1,2,3,11, consistent and inconsistent chain-root commitments, well-formed and garbage extra table fields, "
+                "truncations, bit flips, byte noise and random bytes, delivered in six peer states (no peer, requested last state, requested first proof, "
+                "proved, proved with pending fetch requests, requested new proof); ops c01 / sys / c14: the modelled handlers, where the model must predict "
+                "a panic exactly where the implementation unwinds; distinct = distinct (state, message bytes)",
+        "assumptions": ["molecule verification of the outer message (from_compatible_slice) is trusted",
+                        "filter / sync / relay protocol messages are covered by the ops of C06, C02 and C18 as they are added"],
+        "trusted_base": ["catch_unwind around CKBProtocolHandler::received; modelled panic sites: Matching.v, LastStateProof.v, Difficulty.v, System.v"],
+    },
 }
